@@ -254,6 +254,16 @@ func init() {
 		sb.WriteString("def mismatchSetsFailure : Bool := " + mfail + "\n")
 		sb.WriteString("def respErrChecked : Bool := " + errChecked + "\n\n")
 		sb.WriteString("def replicaCalls : List String := " + LeanStrList(c08Calls(replica)) + "\n")
+		// handleNodeStateChangeEvent: its tests, and whether the wake-up is a plain (blocking) channel send
+		onl := FindFunc(rr, "remoteReplicator", "handleNodeStateChangeEvent")
+		sb.WriteString("def onlineHandlerConds : List String := " + LeanStrList(c08CondTexts(onl)) + "\n")
+		sb.WriteString("def onlineHandlerSends : List String := " + LeanStrList(c08Sends(onl)) + "\n")
+		wk := "false"
+		if ss := c08Sends(onl); len(ss) == 1 && ss[0] == "plain: r.suspend <- struct{}{}" {
+			wk = "true"
+		}
+		sb.WriteString("def wakeSendBlocking : Bool := " + wk + "\n")
+		sb.WriteString("def isReadyRecvs : List String := " + LeanStrList(c08Recvs(isReady)) + "\n")
 		sb.WriteString("def replicaAckArg : String := " + fmt.Sprintf("%q", c08Text(c08CallArg(replica, "r.SetAckIndex", 0))) + "\n")
 		sb.WriteString("def connectCalls : List String := " + LeanStrList(c08Calls(FindFunc(rr, "remoteReplicator", "Connect"))) + "\n")
 		sb.WriteString("def partitionReplicaCalls : List String := " + LeanStrList(c08Calls(FindFunc(pt, "partition", "replica"))) + "\n\n")
@@ -448,12 +458,73 @@ func c08AckIf(fd *ast.FuncDecl) (*ast.IfStmt, ast.Expr) {
 	return st, cmp
 }
 
+// c08Sends lists the channel sends of fd: "plain: <stmt>" for a send statement executed on its own,
+// "select: <stmt>" (+ "/default" when the select has a default clause) for one that is a select case.
+func c08Sends(fd *ast.FuncDecl) []string {
+	var out []string
+	if fd == nil || fd.Body == nil {
+		return nil
+	}
+	inSelect := map[*ast.SendStmt]string{}
+	ast.Inspect(fd.Body, func(n ast.Node) bool {
+		if sel, ok := n.(*ast.SelectStmt); ok {
+			def := ""
+			for _, c := range sel.Body.List {
+				if cc, ok := c.(*ast.CommClause); ok && cc.Comm == nil {
+					def = "/default"
+				}
+			}
+			for _, c := range sel.Body.List {
+				if cc, ok := c.(*ast.CommClause); ok {
+					if snd, ok := cc.Comm.(*ast.SendStmt); ok {
+						inSelect[snd] = "select" + def
+					}
+				}
+			}
+		}
+		return true
+	})
+	ast.Inspect(fd.Body, func(n ast.Node) bool {
+		if snd, ok := n.(*ast.SendStmt); ok {
+			kind := "plain"
+			if k, ok := inSelect[snd]; ok {
+				kind = k
+			}
+			out = append(out, kind+": "+types.ExprString(snd.Chan)+" <- "+c08Lit(snd.Value))
+		}
+		return true
+	})
+	return out
+}
+
+func c08Lit(e ast.Expr) string {
+	if cl, ok := e.(*ast.CompositeLit); ok && len(cl.Elts) == 0 {
+		return types.ExprString(cl.Type) + "{}"
+	}
+	return types.ExprString(e)
+}
+
+// c08Recvs lists the channel receive expressions (`<-ch`) of fd in source order.
+func c08Recvs(fd *ast.FuncDecl) []string {
+	var out []string
+	if fd == nil || fd.Body == nil {
+		return nil
+	}
+	ast.Inspect(fd.Body, func(n ast.Node) bool {
+		if u, ok := n.(*ast.UnaryExpr); ok && u.Op == token.ARROW {
+			out = append(out, "<-"+types.ExprString(u.X))
+		}
+		return true
+	})
+	return out
+}
+
 // c08Calls = CallSeq without logging/statistics/lock noise (those are not modelled).
 func c08Calls(fd *ast.FuncDecl) []string {
 	var out []string
 	for _, c := range CallSeq(fd) {
 		switch {
-		case strings.HasPrefix(c, "logger."), strings.Contains(c, "logger."), strings.HasSuffix(c, ".Incr"), strings.HasSuffix(c, ".Add"),
+		case strings.HasPrefix(c, "logger."), strings.Contains(c, "logger."), c == "verifhook.Yield", strings.HasSuffix(c, ".Incr"), strings.HasSuffix(c, ".Add"),
 			strings.HasSuffix(c, ".Lock"), strings.HasSuffix(c, ".Unlock"), strings.HasSuffix(c, ".RLock"), strings.HasSuffix(c, ".RUnlock"),
 			strings.HasSuffix(c, ".String"), strings.HasSuffix(c, ".Error"), c == "int32", c == "float64", c == "len", c == "string",
 			strings.HasSuffix(c, ".Warn"), strings.HasSuffix(c, ".Info"), strings.HasSuffix(c, ".Debug"), strings.HasSuffix(c, "λ:recover"):
